@@ -63,12 +63,23 @@ def exhaustive(tier):
 
 
 def required(tier):
-    k = 1 if tier == "quick" else 8
-    return {"unit_renderings_read": 60000, "exhaustive_unit_spec": 415 * 4 * 16 * 3,
-            "roundtrip_unit_ok": 15000, "quantity_renderings_read": 4000 * k,
-            "magnitude_text_checked": 4000 * k, "roundtrip_quantity_ok": 1500 * k,
-            "fingerprints_compared": 60000, "config_renderings_read": 1500 * k,
-            "families_read": 7, "mag_kinds": 6, "sort_funcs": 4}
+    # about half of what an unchanged tree yields (exhaustive part is constant, the random
+    # parts scale with the tier)
+    k = 1 if tier == "quick" else 7
+    return {"exhaustive_unit_spec": 415 * 4 * 16 * 3,
+            "unit_renderings_read": 100000 + 50000 * k,
+            "roundtrip_unit_ok": 50000 + 8000 * k,
+            "quantity_renderings_read": 30000 + 20000 * k,
+            "magnitude_text_checked": 30000 + 20000 * k,
+            "roundtrip_quantity_ok": 1500 + 1200 * k,
+            "fingerprints_compared": 150000 + 50000 * k,
+            "config_renderings_read": 8000 * k,
+            "container_renderings_read": 20000 * k,
+            "measurement_renderings_read": 1500 * k,
+            "compact_requests": 3000 * k,
+            "twin_symbol_compounds": 100 * k,
+            "families_read": 7, "mag_kinds": 8, "sort_funcs": 4, "rt_families": 8,
+            "default_formats": 12, "channels": 3}
 
 
 NITS = ("float", "decimal", "fraction")
@@ -723,8 +734,17 @@ class Monitor:
             rec.count("roundtrip_quantity_ok")
             rec.observe("rt_quantity_families", fam + ("~" if short else ""))
             return
+        default = "different-quantity"
+        try:
+            bm = back.magnitude if hasattr(back, "magnitude") else back
+            if (type(bm) is not type(m) and hasattr(back, "units") and back.units == q.units
+                    and math.isclose(float(bm), float(m), rel_tol=1e-12, abs_tol=0.0)):
+                # same units, same value to rounding, but the magnitude left the registry's type
+                default = f"magnitude-type-changed:{type(m).__name__}->{type(bm).__name__}"
+        except Exception:  # noqa: BLE001
+            pass
         rec.violation("roundtrip-quantity", dict(ctx, text=text, q=repr(q), back=repr(back)),
-                      **self.rt_fields(base, items, short, "different-quantity"))
+                      **self.rt_fields(base, items, short, default))
 
 
 # _read_quantity may have recorded a structure violation for a family that is only the first
